@@ -88,4 +88,13 @@ theorem verify_pass_ok_iff_output_up_to_date (cfg : Cfg) (hb : cfg.mode = .build
       ((runPass cfg a src first).1 = .ok ∧ (runPass cfg a src first).2.file? o = a.file? o) :=
   verify_pass_iff cfg hb a src first content o bs hfile hout hnd hbs hsafe hprobes hnot
 
+/-- the side conditions are executable (`srcSafeB`): where the check answers `true`, verify passes
+exactly when the output is up to date -/
+theorem verify_pass_ok_iff_output_up_to_date_where_checked (cfg : Cfg) (hb : cfg.mode = .build) (a : FS) (src : Path) (first : Bool)
+    (hs : srcSafeB cfg a src = some true) :
+    ∃ o, outputPath src = some o ∧
+      ((runPass cfg.toVerify a src first).1 = .ok ↔
+        ((runPass cfg a src first).1 = .ok ∧ (runPass cfg a src first).2.file? o = a.file? o)) :=
+  verify_iff_where_checked cfg hb a src first hs
+
 end C06
